@@ -34,6 +34,10 @@ type c11Family struct {
 	Types []lib.TypeDef `json:"types,omitempty"`
 	Rules []lib.RuleDef `json:"rules,omitempty"`
 	Roots []c11Root     `json:"roots"`
+	// FullReg: every type is added to every type as well (the way an API definition holds its
+	// TYPEs), so that the type objects are complete schemas and are used as roots themselves
+	// (c11Ref kind "type").
+	FullReg bool `json:"types_added_to_every_type,omitempty"`
 }
 
 type c11Doc struct {
@@ -50,7 +54,7 @@ type c11Pool struct {
 
 // c11Ref addresses one pooled object.
 type c11Ref struct {
-	Kind string `json:"kind"` // schema | doc | enum | regex
+	Kind string `json:"kind"` // schema | type (a family's type object used as a schema) | doc | enum | regex
 	Fam  int    `json:"family,omitempty"`
 	Idx  int    `json:"index"`
 }
@@ -58,6 +62,9 @@ type c11Ref struct {
 func (r c11Ref) String() string {
 	if r.Kind == "schema" {
 		return fmt.Sprintf("schema[%d.%d]", r.Fam, r.Idx)
+	}
+	if r.Kind == "type" {
+		return fmt.Sprintf("type[%d.%d]", r.Fam, r.Idx)
 	}
 	return fmt.Sprintf("%s[%d]", r.Kind, r.Idx)
 }
@@ -73,6 +80,9 @@ type c11Op struct {
 
 func (o c11Op) String() string {
 	s := o.On.String() + "." + o.Op
+	if o.Op == "Next3" && o.Doc > 0 {
+		s += "(first " + strconv.Itoa(o.Doc) + " lexemes)"
+	}
 	if o.Op == "Validate" {
 		s += "(doc " + strconv.Itoa(o.Doc)
 		if o.Pre {
@@ -130,6 +140,17 @@ func c11BuildFamily(f *c11Family, only int) *c11FamObjs {
 				_ = ts.AddRule(r.Name, fo.rules[r.Name])
 			}
 			fo.types[t.Name] = ts
+		}
+		if f.FullReg {
+			for _, t := range f.Types {
+				ts, ok := fo.types[t.Name].(*njs.Schema)
+				if !ok {
+					continue
+				}
+				for _, u := range f.Types {
+					_ = ts.AddType(u.Name, fo.types[u.Name])
+				}
+			}
 		}
 	})
 	for i := range f.Roots {
@@ -198,6 +219,8 @@ func c11Fresh(p *c11Pool, on c11Ref) *c11Objs {
 	switch on.Kind {
 	case "schema":
 		o.fams[on.Fam] = c11BuildFamily(&p.Families[on.Fam], on.Idx)
+	case "type":
+		o.fams[on.Fam] = c11BuildFamily(&p.Families[on.Fam], len(p.Families[on.Fam].Roots)) // the types, no root
 	case "doc":
 		o.docs[on.Idx] = c11NewDoc(p.Docs[on.Idx])
 	case "enum":
@@ -361,8 +384,13 @@ func c11ExecRaw(o *c11Objs, op c11Op) (res string, handed []c11Handed) {
 		}
 	}
 	switch op.On.Kind {
-	case "schema":
-		s := o.fams[op.On.Fam].roots[op.On.Idx]
+	case "schema", "type":
+		var s *njs.Schema
+		if op.On.Kind == "schema" {
+			s = o.fams[op.On.Fam].roots[op.On.Idx]
+		} else {
+			s, _ = o.fams[op.On.Fam].types[o.pool.Families[op.On.Fam].Types[op.On.Idx].Name].(*njs.Schema)
+		}
 		switch op.Op {
 		case "Len":
 			n, err := s.Len()
@@ -417,6 +445,9 @@ func c11ExecRaw(o *c11Objs, op c11Op) (res string, handed []c11Handed) {
 			limit := 8*len(o.pool.Docs[op.On.Idx].Text) + 64
 			if op.Op == "Next3" {
 				limit = 3
+				if op.Doc > 0 {
+					limit = op.Doc // random histories: stop after 1..9 lexemes
+				}
 			}
 			var sb strings.Builder
 			for n := 0; n < limit; n++ {
@@ -502,7 +533,7 @@ func c11AllOps(p *c11Pool, refs []c11Ref) []c11Op {
 	var out []c11Op
 	for _, r := range refs {
 		switch r.Kind {
-		case "schema":
+		case "schema", "type":
 			for _, op := range c11SchemaOps {
 				if op != "Validate" {
 					out = append(out, c11Op{On: r, Op: op})
@@ -537,6 +568,13 @@ func c11Refs(p *c11Pool) []c11Ref {
 	for f := range p.Families {
 		for i := range p.Families[f].Roots {
 			out = append(out, c11Ref{Kind: "schema", Fam: f, Idx: i})
+		}
+		if p.Families[f].FullReg {
+			for i, t := range p.Families[f].Types {
+				if !t.Regex {
+					out = append(out, c11Ref{Kind: "type", Fam: f, Idx: i})
+				}
+			}
 		}
 	}
 	for i := range p.Docs {
